@@ -122,7 +122,8 @@ def shard_arrays(part, tier):
                             cases.append((["ct_arr8 %s %s" % (H(base), H(m)), "ct_slice8 %s %s" % (H(m), H(base))],
                                           [arr8_exp(base, m), b(base == m) + b(base != m)], None))
         # unequal slice lengths: loud refusal
-        cases.append((["ct_slice8 %s %s" % (H(bytes(n)), H(bytes(n + 1)))], ["PANIC"], None))
+        # unequal slice lengths: a loud refusal (what the crate does) or the plain answer "not equal" - never "equal"
+        cases.append((["ct_slice8 %s %s" % (H(bytes(n)), H(bytes(n + 1)))], [("PANIC", "FT")], None))
     # u64 arrays / slices, N = 0..8
     for n in range(0, 9):
         if n % 3 != part:
@@ -149,7 +150,7 @@ def shard_arrays(part, tier):
                         zm = all(x == 0 for x in m)
                         cases.append((["ct_arr64 %s %s" % (H(m), H(base)), "ct_slice64 %s %s" % (H(base), H(m))],
                                       [b(zm) + b(not zm) + "FT", b(z) + b(not z) + "FT"], None))
-        cases.append((["ct_slice64 %s %s" % (H(bytes(8 * n)), H(bytes(8 * n + 8)))], ["PANIC"], None))
+        cases.append((["ct_slice64 %s %s" % (H(bytes(8 * n)), H(bytes(8 * n + 8)))], [("PANIC", "TFFT")], None))
     ck.run(cases)
     ck.stats.states = len(cases)
     return ck.stats
